@@ -117,6 +117,8 @@ struct Model {
 		int timerfd = -1; int state = 0; // 0 pending, 1 answered by owner, 2 timed out, 3 owner gone, 4 caller gone, 5 refused
 		uint64_t created = 0; std::string tprec;
 	};
+	std::map<std::string, int> reply_instance;   // token of an owner's answer -> index of the routed request whose frame it answers
+	int latest_routed_with_rid(int owner, const std::string &rid) const { for (int i = (int)routed.size() - 1; i >= 0; i--) if (routed[(size_t)i].owner == owner && routed[(size_t)i].rid_known && routed[(size_t)i].rid == rid) return i; return -1; }
 	struct User { std::string password; std::set<std::string> fg, sg, cg; bool admin = false, readonly = false, has_password = true, has_auth = true; };
 	struct Decision { int state = 0; std::function<void(bool ok)> commit; std::string what; bool silent_refusal = false; bool silent_accept = false; };
 
